@@ -284,7 +284,15 @@ end
 /-- custom function number `fid` (0 or 1) registered for the receiver's type -/
 def callCustom (fid : Nat) (recv : Val) (args : List Val) : Val :=
   match recv with
-  | .str s => if fid == 0 then .str (s ++ [124] ++ Val.descList args) else .str (b "const")
+  | .str s =>
+    if fid == 0 then .str (s ++ [124] ++ Val.descList args)
+    else if fid == 5 then
+      -- looks at its first argument (and, in Go, scribbles over it afterwards: the caller's value is not affected)
+      match args with
+      | .arr (x :: _) :: _ => .str (Val.desc x)
+      | .obj kvs :: _ => .str (natToBytes kvs.length)
+      | _ => .str (b "none")
+    else .str (b "const")
   | .arr xs =>
     if fid == 0 then .arr (xs ++ args)
     else if fid == 2 then
